@@ -40,9 +40,9 @@ def expected_from(occ):
             "contained_in": n > 0, "avoided_by": n == 0}
 
 
-def judge(ctx, p, q, occ, P=None, kind="state"):
+def judge(ctx, p, q, occ, P=None, kind="state", Q=None):
     P = Perm(p) if P is None else P
-    st, obs = util.call(observe, P, Perm(q))
+    st, obs = util.call(observe, P, Perm(q) if Q is None else Q)
     exp = expected_from(occ)
     case = {"kind": kind, "p": list(p), "q": list(q)}
     ctx.case((tuple(p), tuple(q)), nontrivial=len(occ) > 0 and len(p) >= 2)
@@ -98,8 +98,9 @@ def run(ctx):
                             "Colours": "{0, 1}"})
     r = tlc.run_tlc("C01_Search", c, workers=1, coverage=True)
     ctx.add_tlc(r, "history edges")
-    acts = {"Search": 0, "Fresh": 0, "SearchCol": 0}
+    acts = {"Search": 0, "Fresh": 0, "SearchCol": 0, "SearchedIn": 0}
     bound_obj = {}
+    unbound_used = {}
     for e in r.records:
         acts[e["act"]] += 1
         p = tuple(e["p"])
@@ -114,7 +115,8 @@ def run(ctx):
                 list(P.occurrences_in(Perm(p)))
                 bound_obj[p] = P
         else:
-            P = Perm(p)
+            # an object that has only been searched *in* so far has bound nothing: it serves as the unbound object
+            P = unbound_used.pop(p, None) or Perm(p)
         kind = "edge-from-%s" % ("bound" if e["frombound"] else "unbound")
         if e["act"] == "SearchCol":
             cp, cq = e["cols"]
@@ -123,6 +125,13 @@ def run(ctx):
             if st == "raise" or got != e["occ"]:
                 ctx.violation({"kind": kind, "p": list(p), "q": e["q"], "cp": cp, "cq": cq}, "ColouredOccurrences", e["occ"], got)
             bound_obj[p] = P
+            continue
+        if e["act"] == "SearchedIn":           # the object is the permutation: e["q"] is the pattern searched in it
+            judge(ctx, tuple(e["q"]), p, e["occ"], Q=P, kind=kind + "-as-permutation")
+            if e["frombound"]:
+                bound_obj[p] = P               # stays what it was: being searched in binds nothing
+            else:
+                unbound_used[p] = P
             continue
         judge(ctx, p, tuple(e["q"]), e["occ"], P=P, kind=kind)
         bound_obj[p] = P          # whatever it was searched with (also coloured), it is now 'bound'
@@ -246,6 +255,9 @@ def run(ctx):
                             ncol += 1
                             res = [list(t) for t in Perm(p).occurrences_in(Perm(q), list(cp), list(cq))]
                             events.append({"op": "Col", "p": list(p), "q": list(q), "cp": list(cp), "cq": list(cq), "res": res})
+    nextra = len(events)
+    events.extend(hardening_events(ctx, quick))
+    ctx.note("hardening_events", len(events) - nextra)
     v = util.validate_trace(ctx, "Trace_C01", events, invariants=INVS,
                             constants={"MinPatt": 0, "MaxPatt": 0, "MinPerm": 0, "MaxPerm": 0, "Shard": 0, "NShards": 1, "Colours": "{0, 1}"},
                             ntraces=ntr + 1)
@@ -262,6 +274,237 @@ def run(ctx):
                 "histories/coloured searches validated by Trace_C01")
 
 
+# ---- probes added in the hardening round: argument forms, roles, larger inputs, lazy objects, cold start ----
+def _occ(P, Q):
+    return [list(t) for t in P.occurrences_in(Q)]
+
+
+def _std(seq):
+    order = sorted(range(len(seq)), key=lambda i: seq[i])
+    out = [0] * len(seq)
+    for r, i in enumerate(order):
+        out[i] = r
+    return tuple(out)
+
+
+# the ways an iterable of patterns can be handed to avoids_set (the expectation never depends on the form)
+SET_FORMS = [
+    ("list", list), ("tuple", tuple), ("iter", iter), ("genexpr", lambda ps: (p for p in ps)),
+    ("map", lambda ps: map(lambda p: p, ps)), ("filter", lambda ps: filter(lambda p: True, ps)),
+    ("set", set), ("frozenset", frozenset), ("reversed", lambda ps: reversed(list(ps))),
+    ("repeated", lambda ps: list(ps) + list(ps)[:1] + list(ps)[-1:]),
+    ("fresh-objects", lambda ps: map(Perm, [tuple(p) for p in ps])),
+    ("dict-keys", lambda ps: dict.fromkeys(ps).keys()),
+    ("chain", lambda ps: itertools.chain(list(ps)[:1], iter(list(ps)[1:]))),
+]
+
+
+def special_perm(rnd, n):
+    """Structurally special longer permutations: monotone, layered, skew-layered, near-monotone, random."""
+    kind = rnd.choice(["id", "dec", "layered", "skew", "swapends", "random", "random", "random"])
+    if kind == "id":
+        return tuple(range(n))
+    if kind == "dec":
+        return tuple(range(n - 1, -1, -1))
+    if kind in ("layered", "skew"):
+        out, start = [], 0
+        while start < n:
+            size = rnd.randint(1, min(4, n - start))
+            out.extend(range(start + size - 1, start - 1, -1))
+            start += size
+        return tuple(out) if kind == "layered" else tuple(n - 1 - v for v in out)
+    if kind == "swapends" and n > 0:
+        out = list(range(n))
+        out[0], out[-1] = out[-1], out[0]
+        return tuple(out)
+    return util.rand_perm(rnd, n)
+
+
+def pattern_for(rnd, q, k):
+    """A pattern of length k: mostly the standardisation of a subsequence of q (so it occurs), biased to use the
+    boundary positions / extreme values of q; sometimes an arbitrary permutation."""
+    n = len(q)
+    if k > n or k == 0 or rnd.random() < 0.25:
+        return util.rand_perm(rnd, k)
+    forced = set()
+    for cand in (0, n - 1, q.index(0), q.index(n - 1)):
+        if rnd.random() < 0.4 and len(forced) < k:
+            forced.add(cand)
+    rest = [i for i in range(n) if i not in forced]
+    rnd.shuffle(rest)
+    idx = sorted(forced | set(rest[:k - len(forced)]))
+    return _std([q[i] for i in idx])
+
+
+def _cold_start_events(rnd, nproc):
+    """Each subprocess makes one large query as the very first call of a fresh interpreter (nothing memoised
+    anywhere yet), then repeats it through the other entry points."""
+    import subprocess
+    import sys
+    import json as _json
+    code = (
+        "import json, sys\n"
+        "from permuta import Perm\n"
+        "job = json.loads(sys.argv[1])\n"
+        "P, Q, PS = Perm(job['p']), Perm(job['q']), [Perm(x) for x in job['ps']]\n"
+        "ev = []\n"
+        "if job['first'] == 'listing':\n"
+        "    ev.append({'op': 'New', 'p': job['p']})\n"
+        "    ev.append({'op': 'Search', 'q': job['q'], 'res': [list(t) for t in P.occurrences_in(Q)], 'tabok': True})\n"
+        "elif job['first'] == 'avoids_set':\n"
+        "    ev.append({'op': 'Pred', 'kind': 'avoids', 'q': job['q'], 'ps': job['ps'], 'res': Q.avoids_set(x for x in PS)})\n"
+        "elif job['first'] == 'count':\n"
+        "    ev.append({'op': 'Pred', 'kind': 'count', 'q': job['q'], 'ps': [job['p']], 'res': Q.count_occurrences_of(P)})\n"
+        "else:\n"
+        "    ev.append({'op': 'Pred', 'kind': 'contains', 'q': job['q'], 'ps': job['ps'], 'res': Q.contains(*PS)})\n"
+        "ev.append({'op': 'New', 'p': job['p']})\n"
+        "ev.append({'op': 'Search', 'q': job['q'], 'res': [list(t) for t in P.occurrences_in(Q)], 'tabok': True})\n"
+        "ev.append({'op': 'Pred', 'kind': 'count', 'q': job['q'], 'ps': [job['p']], 'res': P.count_occurrences_in(Q)})\n"
+        "ev.append({'op': 'Pred', 'kind': 'contains', 'q': job['q'], 'ps': job['ps'], 'res': Q.contains(*PS)})\n"
+        "ev.append({'op': 'Pred', 'kind': 'avoids', 'q': job['q'], 'ps': job['ps'], 'res': Q.avoids(*PS)})\n"
+        "ev.append({'op': 'Pred', 'kind': 'avoids', 'q': job['q'], 'ps': job['ps'], 'res': Q.avoids_set(iter(PS))})\n"
+        "print(json.dumps(ev))\n")
+    procs = []
+    for i in range(nproc):
+        q = special_perm(rnd, rnd.randint(8, 10))
+        p = pattern_for(rnd, q, rnd.choice([4, 5]))
+        ps = [list(p)] + [list(pattern_for(rnd, q, rnd.choice([3, 4, 5]))) for _ in range(rnd.randint(0, 2))]
+        job = {"p": list(p), "q": list(q), "ps": ps, "first": ["listing", "avoids_set", "count", "contains"][i % 4]}
+        procs.append(subprocess.Popen([sys.executable, "-c", code, _json.dumps(job)], stdout=subprocess.PIPE,
+                                      stderr=subprocess.PIPE, text=True))
+    out = []
+    for pr in procs:
+        so, se = pr.communicate(timeout=300)
+        if pr.returncode != 0:
+            raise tlc.MachineryFailure("C01 cold-start subprocess failed:\n" + se[-1500:])
+        out.extend(_json.loads(so))
+    return out
+
+
+def hardening_events(ctx, quick):
+    """Recorded calls for Trace_C01 that vary what the exhaustive part keeps fixed: the container handed to the
+    multi-pattern predicates, the role of a long-lived object (pattern in one call, permutation in the next),
+    the size and shape of the inputs, other calls while lazy searches are suspended, a fresh interpreter."""
+    rnd = util.rng(ctx, 101)
+    ev = []
+    E = Perm(())
+    # -- (a) argument forms of the multi-pattern predicates, on long-lived permutation and pattern objects
+    for rep_ in range(40 if quick else 200):
+        q = special_perm(rnd, rnd.randint(0, 8))
+        Q = Perm(q)                                   # one permutation object for the whole group of calls
+        for _ in range(3):
+            ps = [pattern_for(rnd, q, rnd.choice([0, 1, 2, 3, 3, 4, 5])) for _ in range(rnd.randint(0, 4))]
+            if rnd.random() < 0.3:
+                ps.append(())                          # the empty pattern: contained in everything
+            if ps and rnd.random() < 0.4:
+                ps.append(rnd.choice(ps))              # an equal pattern as a second object
+            PS = [Perm(x) for x in ps]
+            if PS and rnd.random() < 0.4:
+                PS.append(PS[0])                       # the same object twice
+                ps.append(ps[0])
+            lps = [list(x) for x in ps]
+            name, mk = SET_FORMS[(rep_ + len(ev)) % len(SET_FORMS)]
+            ev.append({"op": "Pred", "kind": "avoids", "q": list(q), "ps": lps, "res": Q.avoids_set(mk(PS)), "form": "avoids_set(%s)" % name})
+            name, mk = rnd.choice(SET_FORMS)
+            ev.append({"op": "Pred", "kind": "avoids", "q": list(q), "ps": lps, "res": Q.avoids_set(mk(PS)), "form": "avoids_set(%s)" % name})
+            if PS:                                     # (no patterns at all: left to the doc examples, not judged)
+                ev.append({"op": "Pred", "kind": "contains", "q": list(q), "ps": lps, "res": Q.contains(*PS), "form": "contains(*)"})
+                ev.append({"op": "Pred", "kind": "avoids", "q": list(q), "ps": lps, "res": Q.avoids(*PS), "form": "avoids(*)"})
+                ev.append({"op": "Pred", "kind": "contains", "q": list(q), "ps": lps, "res": Q.contains(*reversed(PS)), "form": "contains(*reversed)"})
+            for P, x in list(zip(PS, lps))[:2]:        # single-pattern entry points on the same objects, twice
+                ev.append({"op": "Pred", "kind": "contains", "q": list(q), "ps": [x], "res": P in Q, "form": "in"})
+                ev.append({"op": "Pred", "kind": "count", "q": list(q), "ps": [x], "res": Q.count_occurrences_of(P), "form": "count_occurrences_of"})
+                ev.append({"op": "Pred", "kind": "count", "q": list(q), "ps": [x], "res": P.count_occurrences_in(Q), "form": "count_occurrences_in"})
+                ev.append({"op": "Pred", "kind": "count", "q": list(q), "ps": [x], "res": sum(1 for _ in Q.occurrences_of(P)), "form": "occurrences_of"})
+                ev.append({"op": "Pred", "kind": "count", "q": list(q), "ps": [x], "res": Q.count_occurrences_of(P), "form": "count again"})
+        ev.append({"op": "Pred", "kind": "avoids", "q": list(q), "ps": [[]], "res": Q.avoids_set(iter([E])), "form": "avoids_set(empty pattern)"})
+    # -- (b) longer permutations (8-10) with patterns of length 4-5, occurrences at the boundary
+    for _ in range(100 if quick else 600):
+        q = special_perm(rnd, rnd.randint(8, 10))
+        p = pattern_for(rnd, q, rnd.choice([4, 4, 5]))
+        P, Q = Perm(p), Perm(q)
+        ev.append({"op": "New", "p": list(p)})
+        ev.append({"op": "Search", "q": list(q), "res": _occ(P, Q), "tabok": True})
+        ev.append({"op": "Pred", "kind": "count", "q": list(q), "ps": [list(p)], "res": Q.count_occurrences_of(P)})
+        q2 = special_perm(rnd, rnd.randint(7, 10))       # the bound table is reused for a second long permutation
+        ev.append({"op": "Search", "q": list(q2), "res": [list(t) for t in Perm(q2).occurrences_of(P)], "tabok": True})
+        ev.append({"op": "Pred", "kind": "contains", "q": list(q2), "ps": [list(p)], "res": P in Perm(q2)})
+        if len(p) < len(q):                              # a pattern longer than the permutation it is searched in
+            ev.append({"op": "SearchedIn", "p2": list(q), "res": _occ(Q, P)})
+    # -- (c) one object in both roles: pattern, then the permutation being searched, then pattern again
+    for _ in range(80 if quick else 400):
+        pool = [Perm(util.rand_perm(rnd, rnd.randint(1, 5))) for _ in range(3)]
+        pool.append(Perm(tuple(pool[0])))               # an equal but distinct object
+        pool.append(Perm(special_perm(rnd, rnd.randint(5, 7))))
+        me = pool[0]
+        ev.append({"op": "New", "p": list(me)})
+        B, C = pool[4], pool[1]
+        ev.append({"op": "Search", "q": list(B), "res": _occ(me, B), "tabok": True})
+        ev.append({"op": "SearchedIn", "p2": list(C), "res": _occ(C, me)})
+        ev.append({"op": "Search", "q": list(B), "res": _occ(me, B), "tabok": True})
+        ev.append({"op": "SearchedIn", "p2": list(B), "res": _occ(B, me)})
+        ev.append({"op": "Search", "q": list(me), "res": _occ(me, me), "tabok": True})
+        for _ in range(rnd.randint(3, 8)):
+            other = rnd.choice(pool)
+            r = rnd.random()
+            if r < 0.3:
+                ev.append({"op": "Search", "q": list(other), "res": _occ(me, other), "tabok": True})
+            elif r < 0.6:
+                ev.append({"op": "SearchedIn", "p2": list(other), "res": _occ(other, me)})
+            elif r < 0.7:
+                cp = [rnd.randint(0, 1) for _ in me]
+                cq = [rnd.randint(0, 1) for _ in other]
+                # colours are compared by equality: any container, any equal objects
+                res = [list(t) for t in me.occurrences_in(other, tuple("rb"[c] for c in cp), "".join("rb"[c] for c in cq))]
+                ev.append({"op": "SearchCol", "q": list(other), "cp": cp, "cq": cq, "res": res})
+            elif r < 0.85:
+                ev.append({"op": "Pred", "kind": "count", "q": list(other), "ps": [list(me)], "res": other.count_occurrences_of(me)})
+                ev.append({"op": "Pred", "kind": "count", "q": list(me), "ps": [list(other)], "res": me.count_occurrences_of(other)})
+            else:
+                ev.append({"op": "Pred", "kind": "contains", "q": list(me), "ps": [list(x) for x in pool], "res": me.contains(*pool)})
+                ev.append({"op": "Pred", "kind": "avoids", "q": list(me), "ps": [list(x) for x in pool[1:3]], "res": me.avoids_set(x for x in pool[1:3])})
+    # -- (d) other calls on the object while lazy searches on it are suspended half way
+    for _ in range(80 if quick else 400):
+        p = util.rand_perm(rnd, rnd.choice([1, 2, 2, 3, 3]))
+        P = Perm(p)
+        ev.append({"op": "New", "p": list(p)})
+        live = []
+        for _ in range(2):
+            q = special_perm(rnd, rnd.randint(len(p), len(p) + 4))
+            ev.append({"op": "OpenIter", "q": list(q)})
+            live.append((len(live) + 1, P.occurrences_in(Perm(q)) if rnd.random() < 0.5 else Perm(q).occurrences_of(P)))
+        while live:
+            r = rnd.random()
+            if r < 0.55:
+                j = rnd.randrange(len(live))
+                i, it = live[j]
+                try:
+                    ev.append({"op": "StepIter", "it": i, "stop": False, "res": list(next(it))})
+                except StopIteration:
+                    ev.append({"op": "StepIter", "it": i, "stop": True, "res": []})
+                    live.pop(j)
+                except Exception as e:  # pylint: disable=broad-except
+                    ctx.violation({"kind": "iterator", "p": list(p)}, "NoException", "a tuple or StopIteration", type(e).__name__)
+                    live.pop(j)
+                continue
+            q = special_perm(rnd, rnd.randint(0, 7))
+            Q = Perm(q)
+            if r < 0.7:
+                ev.append({"op": "Search", "q": list(q), "res": _occ(P, Q), "tabok": True})
+            elif r < 0.8:
+                ev.append({"op": "SearchedIn", "p2": list(q), "res": _occ(Q, P)})
+            elif r < 0.9:
+                cp = [rnd.randint(0, 1) for _ in p]
+                cq = [rnd.randint(0, 1) for _ in q]
+                ev.append({"op": "SearchCol", "q": list(q), "cp": cp, "cq": cq, "res": [list(t) for t in P.occurrences_in(Q, cp, cq)]})
+            else:
+                ev.append({"op": "Pred", "kind": "contains", "q": list(q), "ps": [list(p)], "res": Q.contains(P)})
+                ev.append({"op": "Pred", "kind": "count", "q": list(q), "ps": [list(p)], "res": P.count_occurrences_in(Q)})
+    # -- (e) a fresh interpreter whose very first call is a large query
+    ev.extend(_cold_start_events(rnd, 4 if quick else 16))
+    return ev
+
+
 TRACE_CONSTS = {"MinPatt": 0, "MaxPatt": 0, "MinPerm": 0, "MaxPerm": 0, "Shard": 0, "NShards": 1, "Colours": "{0, 1}"}
 
 
@@ -273,7 +516,7 @@ def replay(ctx, path):
     if case["kind"] == "trace-event":
         ev = dict(case["event"])
         events = []
-        if ev["op"] in ("Search", "SearchCol"):
+        if ev["op"] in ("Search", "SearchCol", "SearchedIn", "OpenIter", "StepIter"):
             raise tlc.MachineryFailure("history events are replayed from their 'edge' form only")
         if ev["op"] == "Pred":
             Q, PS = Perm(ev["q"]), [Perm(x) for x in ev["ps"]]
